@@ -40,6 +40,7 @@ func errKnown(facts []Fact, errs []ssa.Value) (bool, bool) {
 		if !ok {
 			continue
 		}
+		x = resolveLoad(x)
 		for _, e := range errs {
 			if x == e {
 				return true, eq == f.Val
@@ -211,4 +212,49 @@ func hasFieldStores(a *ssa.Alloc) bool {
 		}
 	}
 	return false
+}
+
+// resolveLoad: a load of a local cell (also one captured by a deferred closure, e.g. a named
+// result) is replaced by the value last stored to it, searching backwards in the block and up a
+// chain of unique predecessors. Stores by closures only run at function exit (defer).
+func resolveLoad(v ssa.Value) ssa.Value {
+	u, ok := v.(*ssa.UnOp)
+	if !ok || u.Op != token.MUL {
+		return v
+	}
+	a, ok := u.X.(*ssa.Alloc)
+	if !ok {
+		return v
+	}
+	b := u.Block()
+	idx := instrIndex(u)
+	for hops := 0; hops < 16; hops++ {
+		for k := idx - 1; k >= 0; k-- {
+			if st, ok := b.Instrs[k].(*ssa.Store); ok && st.Addr == a {
+				return st.Val
+			}
+		}
+		if len(b.Preds) != 1 {
+			return v
+		}
+		b = b.Preds[0]
+		idx = len(b.Instrs)
+	}
+	return v
+}
+
+// assumeField builds an assumption map: every branch in fn on a load of the named struct field takes val.
+func assumeField(fn *ssa.Function, assume map[ssa.Value]bool, key string, val bool) map[ssa.Value]bool {
+	if assume == nil {
+		assume = map[ssa.Value]bool{}
+	}
+	eachInstr(fn, false, func(_ *ssa.Function, i ssa.Instruction) {
+		if iff, ok := i.(*ssa.If); ok {
+			f := normFact(iff.Cond, true)
+			if fieldKeyOfLoad(f.V) == key {
+				assume[f.V] = val
+			}
+		}
+	})
+	return assume
 }
